@@ -193,7 +193,7 @@ def describe(typ, body):
         d.update(update_summary(body))
     elif typ == ROUTEREFRESH or typ == CISCO_RR:
         if len(body) == 4:
-            d.update(afi=body[0] * 256 + body[1], safi=body[3])
+            d.update(afi=body[0] * 256 + body[1], safi=body[3], res=body[2])
     elif typ == -1:
         d['type'] = 'GARBAGE'
     return d
